@@ -364,6 +364,9 @@ class FSM(object):
             if self.hold_time > 0:
                 self.keep_alive_timer.reset(self.keep_alive_time)
                 self.hold_timer.reset(self.hold_time)
+            else:    # holdTime == 0: no keepalives and no hold timer (stop the large one)
+                self.keep_alive_timer.cancel()
+                self.hold_timer.cancel()
             self.state = bgp_cons.ST_OPENCONFIRM
 
         elif self.state == bgp_cons.ST_OPENCONFIRM:
@@ -458,12 +461,14 @@ class FSM(object):
         """
 
         if self.state == bgp_cons.ST_OPENCONFIRM:
-            # State OpenSent, event 26
-            self.hold_timer.reset(self.hold_time)
+            # State OpenConfirm, event 26
+            if self.hold_time > 0:
+                self.hold_timer.reset(self.hold_time)
             self.state = bgp_cons.ST_ESTABLISHED
         elif self.state == bgp_cons.ST_ESTABLISHED:
             # State Established, event 26
-            self.hold_timer.reset(self.hold_time)
+            if self.hold_time > 0:
+                self.hold_timer.reset(self.hold_time)
         elif self.state == bgp_cons.ST_OPENSENT:
             # State OpenSent, event 26: FSM error
             self.protocol.send_notification(bgp_cons.ERR_FSM, 0)
